@@ -16,13 +16,13 @@ PROP = {
         "encoding/json is the environment: it writes map keys in sorted order (explicit hypothesis of C16_json_perm_invariant; observed by the oracle on every run); Map.Json/JsonIndent are modelled as a function of the bytes json.Encoder.Encode wrote under SetEscapeHTML(safe) (minus the final newline; JsonIndent = json.Indent of them), as json.go does after fix b2598e9",
         "io.Writer sinks obey the io.Writer contract (no short write without an error); os.File and the file system are the environment",
         "indentation is not modelled as bytes: XmlIndent writes the items of map_xml_indent_items with blanks between them; tied by the run with prefix = indent = \"\" (newlines removed) and, for every other blank prefix/indent, by the token-stream oracle",
-        "the MapSeq encoder is covered by the Go-side oracle only (its model belongs to the C04 check; the place for the Coq theorem is marked in Props/C16.v)",
+        "the MapSeq encoder model (Model/SeqEnc.v, tied to /repo by the C04 correspondence) is proved invariant under entry reordering when siblings carry distinct sequence numbers, which every decoder output does (C16_seq_encode_perm_invariant, C16_seq_decoded_deterministic)",
     ],
     "level_text": "Machine-checked theorems over the executable model of Map.Xml / Map.XmlIndent / AnyXml (all option records, all values of any nesting): "
                   "equal Maps (veq, decided by veqb) give the same items and bytes; the items are ordered; the two root rules agree except for a single key with a list of maps. "
                   "The model is tied to the current /repo by differential correspondence evaluated inside Coq on rebuilt Map variants printed in shuffled entry order; the byte-level "
                   "oracle compares every entry point across 4 variants x 2 calls, the Writer forms on three sinks, and the Maps string/file forms with the per-Map encodings.",
     "level_note": "Trusted: Coq kernel + vm_compute; the hand-written encoder model is only as good as the correspondence run; determinism of encoding/json and of the Go runtime's "
-                  "map implementation under 'all capacities / insertion orders' is sampled (4 variants per Map), not proved; MapSeq determinism is oracle-only; "
+                  "map implementation under 'all capacities / insertion orders' is sampled (4 variants per Map), not proved; MapSeq determinism is proved over the C04 model (correspondence of that model runs in the C04 check, the C16 oracle evaluates it on the implementation); "
                   "found and fixed: Maps.JsonString / JsonStringIndent ignored safeEncoding (da6537e), XmlGoEmptyElemSyntax wrote <a x=\"1\"</a> (b04ec07); recorded finding: JsonStringIndent separates documents by a newline.",
 }
